@@ -26,6 +26,28 @@ CLAIMS = {
  "C18": ("proof", "Theorems: map fst (kmg_run) = mg_run for all inputs; concat of attached lists = canonical w-mers of kg_run for 1 <= m <= w <= 31. Correspondence of the real iterator against the model (exact) and the spec (runs and concatenation), plus relation checks among the three real iterators.",
          "7 C18", "distribution of w-mers over runs is left open by the property and compared only against the model.",
          "Coq proof (simulation + conservation invariant) + differential correspondence"),
+
+ "C04": ("proof", "Theorems for every k in 1..=31 and every byte list over 4..255: the model's vector (pos_map / histogram as in the Rust) equals, column by column, the number of valid windows whose canonical form is that column's k-mer; entries sum to the window count; all-zero row without windows; invariance under reverse complement, lower case and U for T. The normalised entry is the binary64 quotient count / max(1,total) (Flocq model, compared bit for bit); 'correct to 6 decimals' of the printed text rests on the validated fmt6 model (partial).",
+         "7 C04", "Rust float formatting {:.6} is modelled (fmt6) and validated bit/text-exact, not verified; Python and CLI paths are covered by C13/C15.",
+         "Coq proof (histogram = occurrence counts over the canonical columns, permutation/extensionality arguments) + differential correspondence incl. metamorphic respellings"),
+ "C05": ("proof", "Theorems: the batch loop outputs header ++ rows in record order for EVERY memory limit; the mapped writer's schedule model puts row n into slot n for EVERY worker count and EVERY complete interleaving of TAKE/WRITE/EXIT steps; both writers agree; a header adds exactly one line. Tied to the code by the byte-identity matrix (threads x limits x writers x containers x delimiters), by controlled-scheduler replay through the cfg(kmertools_verif) hooks whose logged trace, write offsets and bytes must equal the model's, and by run-twice agreement on the implementation.",
+         "7 C05", "atomicity of the reader mutex and of one write_at per row, and order preservation of rayon collect, are assumed; interleavings below hook granularity are runtime behaviour the model cannot exhibit (partial).",
+         "Coq proof (invariant over all schedules; induction over the batch loop) + schedule replay and trace validation against the hooked implementation"),
+ "C07": ("proof", "Theorems: chunked counting under any schedule of CHECK/TAKE/INC/ADD/EXIT steps, any worker count and any limit counts every k-mer exactly as often as it occurs over all chunk passes; partition + per-partition merge yields exactly one line per distinct k-mer carrying the total, for every n_parts >= 1 and every chunking. Correspondence: kmers.counts (numeric and ACGT) and surviving temp files for ceilings giving 1..dozens of chunks/partitions, threads default/1..16, repetitive inputs.",
+         "7 C07", "atomicity of scc entry and AtomicU64 assumed; a non-atomic get-then-insert shows only in free-running stress (partial); counts < 2^32.",
+         "Coq proof (conservation invariant over all schedules; merge algebra) + differential correspondence on the merged table"),
+ "C08": ("proof", "Theorems for every k in 1..=31, bin count >= 1, any table: the row has bin-count entries, entry b counts the valid windows whose canonical k-mer has multiplicity c with min(c / bin-size, bin-count - 1) = b (absent k-mers: bin 0), every window in exactly one bin; the batch loop writes one row per record in order for every limit (after the D5 fix). Correspondence at record level (boundary multiplicities) and file level (alt input, flush per record / never, threads, trailing empty records).",
+         "7 C08", "(count as f64 / bin_size as f64).floor() modelled as integer division (assumed exact below 2^32, boundary values generated).",
+         "Coq proof (histogram lemma, batch loop induction) + differential correspondence"),
+ "C10": ("proof", "Theorems: for every worker count and every complete interleaving the emitted items (s2m lines; m2s pushes) are exactly all items as a multiset; the runs of a record are the spec runs of C09 over the effective window (w=0: whole record). Correspondence: both outputs as sets of lines (lists as multisets) against model and spec, and m2s = inversion of s2m on the implementation itself.",
+         "7 C10", "atomicity of scc entry and of the mutex-protected line write assumed (a lost insert inside a non-atomic contains/insert is below hook granularity: partial).",
+         "Coq proof (multiset conservation over all schedules, C09 transfer) + differential correspondence"),
+ "C11": ("proof", "Theorems on the generic walk (both the exact dyadic and the Flocq binary64 model): one point per base, rejection exactly when a byte has no corner (and then no coordinates), prefix determinacy, midpoint rule; on the exact model: every point inside [0,S]^2 and the last j bases fix a sub-square of side S/2^j. Corner table regenerated and proved equal to the property's corners for all 256 bytes. Correspondence: coordinates bit for bit with the binary64 model for every length, with the exact spec on the exactly representable prefix; file path with threads/limits/containers.",
+         "7 C11", "Rust f64 +,/ assumed IEEE binary64 RNE (Flocq); `{}` printing validated by parse-back only; equality of the float and exact models beyond the representable prefix is not proved (containment there is partial).",
+         "Coq proof (induction over the walk, dyadic arithmetic by nia/lia) + bit-exact differential correspondence (Flocq)"),
+ "C12": ("proof", "Theorems: one triple per canonical column; (x,y) of column j is the CGR end point of that k-mer's text and does not depend on the record; f equals the oligo entry (C04 transfer). Correspondence bit for bit at record and file level, and f cross-checked against the oligo vector on the implementation.",
+         "7 C12", "as C04 and C11.",
+         "Coq proof (C04/C11 transfer) + bit-exact differential correspondence"),
 }
 
 REASONS_PENDING = "check not built yet in this snapshot (planned: see DESIGN.md section 7); not claimed until its proof and correspondence run"
